@@ -348,7 +348,8 @@ def i_sra(ins, fmap):
     # src1 is a register shared by the whole module: flag a copy of it
     src1 = src1.signed()
     if dst is not g0:
-        fmap[dst] = fmap(src1 >> src2)
+        # arithmetic shift (>> is the logical one, whatever the sign flag)
+        fmap[dst] = fmap(oper(OP_ASR, src1, src2))
 
 
 @__pcnpc
